@@ -170,3 +170,66 @@ def viewRecords (old new : Emu) : Except Err (List PrvRec) :=
            new.cpus.flatMap (fun c => cpuViewList new.specs old new (old.cpus.getD c.gindex c) c))
 
 end Ovni.Emu
+
+namespace Ovni.Emu
+open Ovni.Generated
+
+/-! ### the emit callbacks of the system channels
+
+thread.c `thread_connect` / cpu.c `cpu_connect` register the thread's `cpu`
+(`PRV_NEXT`), `tid`, state (`PRV_SKIPDUP`) and the CPU's `pid`, `tid`,
+`nrunning` (`PRV_ZERO`) channels.  These channels live in the `Thread` / `Cpu`
+records of the reference emulator, not in the `Bay` model (no mux reads them
+except the state channel and `th_running`); their callback is `emitOne` on the
+record's channel.  `last_value`s: one triple per thread / CPU. -/
+
+abbrev Lv3 := Option Value × Option Value × Option Value
+
+/-- `cb_prv` of a registered system channel when `bay_propagate` reaches it -/
+def emitSys1 (r : PrvReg) (ch : Chan) (lv : Option Value) : Except Err (Option Value × List PrvRec) :=
+  if ch.dirty then emitOne r lv ch.cur else .ok (lv, [])
+
+def thSysEmit (t : Thread) (l : Lv3) : Except Err (Lv3 × List PrvRec) :=
+  match emitSys1 ⟨0, 0, t.gindex + 1, prvThreadCpu, prvNext⟩ t.chCpu l.1 with
+  | .error e => .error e
+  | .ok (a, la) =>
+    match emitSys1 ⟨0, 0, t.gindex + 1, prvThreadTid, 0⟩ t.chTid l.2.1 with
+    | .error e => .error e
+    | .ok (b, lb) =>
+      match emitSys1 ⟨0, 0, t.gindex + 1, prvThreadState, prvSkipDup⟩ t.chState l.2.2 with
+      | .error e => .error e
+      | .ok (c, lc) => .ok ((a, b, c), la ++ (lb ++ (lc ++ [])))
+
+def cpuSysEmit (x : Cpu) (l : Lv3) : Except Err (Lv3 × List PrvRec) :=
+  match emitSys1 ⟨0, 1, x.gindex + 1, prvCpuPid, 0⟩ x.chPid l.1 with
+  | .error e => .error e
+  | .ok (a, la) =>
+    match emitSys1 ⟨0, 1, x.gindex + 1, prvCpuTid, 0⟩ x.chTid l.2.1 with
+    | .error e => .error e
+    | .ok (b, lb) =>
+      match emitSys1 ⟨0, 1, x.gindex + 1, prvCpuNrun, prvZero⟩ x.chNrun l.2.2 with
+      | .error e => .error e
+      | .ok (c, lc) => .ok ((a, b, c), la ++ (lb ++ (lc ++ [])))
+
+/-- the callbacks of a list of rows, in row order (the call order is the
+    dirty-list order; every callback only touches its own `last_value`) -/
+def rowsEmit {α} (f : α → Lv3 → Except Err (Lv3 × List PrvRec)) : List α → List Lv3 → Except Err (List Lv3 × List PrvRec)
+  | [], _ => .ok ([], [])
+  | a :: as, ls =>
+    match f a (ls.headD (none, none, none)) with
+    | .error e => .error e
+    | .ok (l', r) =>
+      match rowsEmit f as ls.tail with
+      | .error e => .error e
+      | .ok (ls', rs) => .ok (l' :: ls', r ++ rs)
+
+/-- all system-channel callbacks of one `bay_propagate`, on the channels of `e'` -/
+def sysEmit (e' : Emu) (tl cl : List Lv3) : Except Err (List Lv3 × List Lv3 × List PrvRec) :=
+  match rowsEmit thSysEmit e'.threads tl with
+  | .error e => .error e
+  | .ok (tl', r1) =>
+    match rowsEmit cpuSysEmit e'.cpus cl with
+    | .error e => .error e
+    | .ok (cl', r2) => .ok (tl', cl', r1 ++ r2)
+
+end Ovni.Emu
